@@ -6,7 +6,9 @@ lock acquisition; (R2) every path of flush / Drop / abort that publishes (queues
 chunk, sets the producer-finished flag, stores the error) takes the parked waker
 under the same lock and wakes it on the Some edge; (R3) Pending is returned only
 on that one row -- every row with the producer finished or a non-live state
-returns Ready; (R4) the writer's Drop reaches a publish, the file has one mutex
+returns Ready; (R4) the writer's Drop reaches a publish on *every* return path
+(R4.drop: no early exit - a flag of its own, `thread::panicking()` - skips the shared state),
+the file has one mutex
 with five lock sites and no nested acquisition; (R5) the reader never reports
 end-of-stream while chunks or an abort error are undelivered (a consumer that
 trusts the flag, as hyper does, stops polling and would never observe them).
